@@ -26,7 +26,7 @@ RULE = ("case = one expression class (all generated argument shapes + harvested 
         "ampform-class argument, a non-SymPy attribute, or is a model with >= 2 amplitudes")
 ASSUMPTIONS = ["srepr is a faithful structural fingerprint", "numeric equality via route A-fast at 4 events / 5 points"]
 FLOORS = {"quick": {"evaluations": 1500, "distinct_nontrivial": 100, "hooks": ["pickle.same_process", "pickle.fresh_process"]},
-          "thorough": {"evaluations": 5000, "distinct_nontrivial": 200, "hooks": ["pickle.same_process", "pickle.fresh_process"]}}
+          "thorough": {"evaluations": 4000, "distinct_nontrivial": 200, "hooks": ["pickle.same_process", "pickle.fresh_process"]}}
 CASE_TIMEOUT = {"quick": 500, "thorough": 1800}
 CONFIGS = ["default", "stable_scalar", "couplings", "bw", "bw_ff", "analytic", "axisangle", "dpd1", "dpd3_bw_ff"]
 QUICK_MODELS = [("jpsi_gamma_pi0_pi0__f0.hel", "default"), ("jpsi_gamma_pi0_pi0__f0.can", "bw_ff"), ("jpsi_p_pbar_pi0__n1440.hel", "axisangle"),
@@ -150,6 +150,16 @@ def run_case(case, rec, ctx):
                     if depth > 0 and type(node).__name__.startswith("_"):
                         extra.append((f"harvested:{type(node).__name__}", node))
             insts += extra[:12]
+            cls_ = ctx["classes"][case["key"]]
+            import dataclasses as _dc
+            if _dc.is_dataclass(cls_) and not cls_.__name__.startswith("_"):
+                # independently drawn argument shapes and non-SymPy attribute values (thorough: 40 per class)
+                r2 = np.random.default_rng([ctx["seed"], 15, 7, case["idx"]])
+                for k_ in range(4 if ctx["tier"] == "quick" else 40):
+                    try:
+                        insts.append((f"random/{k_}", exprs.random_instance(cls_, ctx["pool"], r2)))
+                    except Exception:  # noqa: BLE001, S112
+                        continue
             if name == "UnevaluatedExpression":
                 from vmon.workloads.deprecated_sample import DeprecatedSquare
                 insts.append(("deprecated", DeprecatedSquare(ctx["pool"].x + 1, name="sq")))
